@@ -65,6 +65,7 @@ def names(seed):
     return {
         'o1': o1, 'o2': 'https://b.%s' % host, 'o3': 'http://c.%s:8080' % host,
         'oc': o1.upper(),                                 # case variant of o1
+        'om': 'https://M.%s' % host.capitalize(),         # a CONFIGURED origin that is not all lower-case
         'pre': 'https://preset.%s' % host,                # what a responder pre-sets
         'xa': ('X-A', 'X-Trace', 'ETag')[k], 'xb': ('X-B', 'X-Rate', 'Link')[k],
         'reqh': ('X-Custom, Content-Type', 'Authorization', 'x-one,x-two')[k],
@@ -75,7 +76,7 @@ def names(seed):
 def configs(nm, tier):
     """[(allow_origins, allow_credentials, expose_headers)] -- constructor arguments."""
     o1, o2, o3 = nm['o1'], nm['o2'], nm['o3']
-    ao = ['*', o1, [o1, o2], []]
+    ao = ['*', o1, [o1, o2], [], [nm['om'], o2]]
     ac = [None, '*', o1, [o1, o3]]
     eh = [None, nm['xa'], [nm['xa'], nm['xb']]]
     if tier != 'quick':
@@ -103,7 +104,7 @@ class Policy:
 
 def origins(nm, tier='quick'):
     # ... and a proper PREFIX and a proper INFIX of a configured origin (substring vs membership tests)
-    o = [None, nm['o1'], nm['o2'], nm['o3'], nm['oc'], nm['o1'][:-1], nm['o1'][8:]]
+    o = [None, nm['o1'], nm['o2'], nm['o3'], nm['oc'], nm['o1'][:-1], nm['o1'][8:], nm['om'], nm['om'].lower()]
     if tier != 'quick':
         o += ['null', nm['o2'] + '/']          # opaque origin; configured origin with a trailing slash (a different string)
     return o
